@@ -52,7 +52,8 @@ def apply_real(c, op, params=None, cast=None, phase_cast=None):
         U = make_unitary(kind, kk, seed)
         # with or without a label, mode given or defaulted (a function of the op); the documented argument type is
         # numpy.ndarray - nested lists are not accepted by lw.Unitary and are not generated
-        u = lw.Unitary(U, label=f"U{seed % 7}") if seed % 2 else lw.Unitary(U)
+        u = lw.Unitary(U, label=["U1", "", "U", "long label for a unitary", "θ", "U5", "ab"][seed % 7]) if seed % 2 \
+            else lw.Unitary(U)
         if m == 0 and seed % 5 == 0:
             c.add(u)                                   # mode defaulted
         else:
